@@ -25,6 +25,9 @@ verus! {
 //@field-type mutators VfMutators
 #[verifier::external_body]
 pub struct VfMutators { inner: usize }
+#[verifier::external_body]
+pub struct VfSnapshot { inner: usize }
+pub struct VfError { pub code: u8 }
 } // verus!
 
 //@include contracts/shim.rs
@@ -635,6 +638,218 @@ impl Generator {
                     lemma_top_mark_compat(self.view(), gr.stack); lemma_top_mark_props(self.view()); }
 //@epilogue
         proof { assert(self.cleanup_post(old(self), r, gtr)); }
+//@endfn
+
+    // ---------------------------------------------------------------------------------------------
+    // U6 (abstract effect of the emitters): which opcode is handed to process_stack_ops, with which
+    // memo index, and that exactly one opcode is appended.  Byte-level encodings are the Kani side.
+    pub open spec fn int_like(op: OpcodeKind) -> bool {
+        op == OpcodeKind::Int || op == OpcodeKind::Long || op == OpcodeKind::Long1 || op == OpcodeKind::Long4
+        || op == OpcodeKind::BinInt || op == OpcodeKind::BinInt1 || op == OpcodeKind::BinInt2
+    }
+    pub open spec fn family(op: OpcodeKind, op2: OpcodeKind) -> bool {
+        op2 == op || (Generator::int_like(op) && Generator::int_like(op2))
+    }
+    pub open spec fn flags_ok(&self, op: OpcodeKind) -> bool {
+        &&& (op == OpcodeKind::Ext1 || op == OpcodeKind::Ext2 || op == OpcodeKind::Ext4) ==> self.allow_ext_opcodes
+        &&& (op == OpcodeKind::NextBuffer || op == OpcodeKind::ReadOnlyBuffer) ==> self.allow_buffer_opcodes
+        &&& op != OpcodeKind::Frame && op != OpcodeKind::Stop && op != OpcodeKind::Proto
+    }
+    /// what one emit_and_process call achieves: exactly one opcode `op2` (same family as the chosen
+    /// one, available in the protocol, respecting the opt-in flags) whose reference preconditions
+    /// hold is appended, and the simulation follows the reference machine
+    pub open spec fn emit_post(&self, o: &Generator, r: RefState, op: OpcodeKind, op2: OpcodeKind, a: RefArg, chunk: Seq<u8>) -> bool {
+        &&& Generator::family(op, op2)
+        &&& ref_pre(op2, a, r)                                   // C01 C02 C03
+        &&& self.rel(ref_step(op2, a, r))                        // C17
+        &&& contig(ref_step(op2, a, r))
+        &&& ref_proto(op2) <= ver_num(o.state.version)           // C05
+        &&& o.flags_ok(op2)                                      // C10 C06
+        &&& self.output@ == o.output@ + chunk && chunk.len() >= 1 && chunk[0] == ref_code(op2) as u8   // C11 C04
+        &&& self.same_config(o)
+    }
+    pub open spec fn emit_pre(&self, op: OpcodeKind, r: RefState) -> bool {
+        &&& self.rel(r) && contig(r)
+        &&& !self.unsafe_mutations
+        &&& self.guard_ok(op, r)
+        &&& ref_proto(op) <= ver_num(self.state.version)
+        &&& r.memo_len < 0x1_0000_0000
+        &&& ver_num(self.state.version) >= 2 ==> self.state.proto_emitted
+    }
+
+//@fn src/generator/mutation.rs Generator::mutate_memo_index
+//@ret r
+//@assume
+//@contract
+//@endfn
+
+//@fn src/generator/mutation.rs Generator::mutate_float
+//@ret r
+//@assume
+//@contract
+//@endfn
+
+#[verifier::external_body]
+pub fn create_snapshot(&self) -> (r: VfSnapshot) { unimplemented!() }
+
+/// post_process_emission: in safe mode no registered built-in mutator rewrites emitted bytes
+/// (TypeConfusionMutator::post_process returns false unless unsafe; all others use the default
+/// method) -- proved by the Kani harnesses u8_typeconfusion_* / u8_not_applicable_*.
+#[verifier::external_body]
+pub fn post_process_emission(&mut self, snapshot: VfSnapshot, source: &mut GenerationSource)
+    ensures !old(self).unsafe_mutations ==> *final(self) == *old(self),
+{ unimplemented!() }
+
+#[verifier::external_body]
+pub fn get_random_module(&self, source: &mut GenerationSource) -> (r: Result<VfText, VfError>)
+    ensures r is Ok, vf_line_parts(r->Ok_0.bytes()) >= 2, r->Ok_0.bytes().len() >= 2
+{ unimplemented!() }
+
+//@define EMIT_CONTRACT
+//@contract
+    requires
+        old(self).emit_pre(opcode, r),
+    ensures
+        res is Ok,
+        exists|op2: OpcodeKind, a: RefArg, chunk: Seq<u8>| #[trigger] final(self).emit_post(old(self), r, opcode, op2, a, chunk),
+//@enddef
+
+//@arms src/generator/emission.rs Generator::emit_and_process opcode
+//@ret res
+//@ghost Ghost(r): Ghost<RefState>
+//@props C01 C02 C03 C05 C10 C11 C17
+//@sigsubst Result<()> => Result<(), VfError>
+//@use EMIT_CONTRACT
+//@arm Int | Long | Long1 | Long4 | BinInt | BinInt1 | BinInt2
+//@assume
+//@arm Float
+//@assume
+//@arm BinFloat
+//@assume
+//@arm String | Unicode | ShortBinUnicode | BinUnicode | BinUnicode8
+//@assume
+//@arm BinString | ShortBinString | ShortBinBytes | BinBytes | BinBytes8 | ByteArray8
+//@assume
+//@arm Global
+//@assume
+//@arm Put
+//@subst format!("{}\n", index) => vf_fmt_usize_nl(index)
+//@rewrite R14 process_stack_ops self.process_stack_ops($ARGS, Ghost(r), Ghost(RefArg { idx: index as int }))
+//@before 1 self.process_stack_ops(
+                let ghost out1 = self.output@;
+//@before 1 Ok(())
+        proof {
+            let ga = RefArg { idx: old(self).state.memo@.len() as int };
+            let chunk = self.output@.subrange(old(self).output@.len() as int, self.output@.len() as int);
+            assert(self.output@ =~= old(self).output@ + chunk);
+            assert(self.emit_post(old(self), r, opcode, opcode, ga, chunk));
+        }
+//@arm BinPut
+//@rewrite R14 process_stack_ops self.process_stack_ops($ARGS, Ghost(r), Ghost(RefArg { idx: index as int }))
+//@before 1 self.process_stack_ops(
+                let ghost out1 = self.output@;
+//@before 1 Ok(())
+        proof {
+            let ga = RefArg { idx: old(self).state.memo@.len() as int };
+            let chunk = self.output@.subrange(old(self).output@.len() as int, self.output@.len() as int);
+            assert(self.output@ =~= old(self).output@ + chunk);
+            assert(self.emit_post(old(self), r, opcode, opcode, ga, chunk));
+        }
+//@arm LongBinPut
+//@substall index.to_le_bytes() => vf_u32_to_le_bytes(index)
+//@rewrite R14 process_stack_ops self.process_stack_ops($ARGS, Ghost(r), Ghost(RefArg { idx: index as int }))
+//@before 1 self.process_stack_ops(
+                let ghost out1 = self.output@;
+//@before 1 Ok(())
+        proof {
+            let ga = RefArg { idx: old(self).state.memo@.len() as int };
+            let chunk = self.output@.subrange(old(self).output@.len() as int, self.output@.len() as int);
+            assert(self.output@ =~= old(self).output@ + chunk);
+            assert(self.emit_post(old(self), r, opcode, opcode, ga, chunk));
+        }
+//@arm Get
+//@subst self.state.memo.keys().copied().collect() => vf_keys(&self.state.memo)
+//@subst keys.sort_unstable() => vf_sort_unstable(&mut keys)
+//@subst format!("{}\n", index) => vf_fmt_usize_nl(index)
+//@rewrite R14 process_stack_ops self.process_stack_ops($ARGS, Ghost(r), Ghost(RefArg { idx: index as int }))
+//@prelude
+        let ghost mut gidx: int = 0;
+//@after 1 vf_sort_unstable(&mut keys)
+                proof { assert(keys@.len() > 0); }
+//@after 1 let index = keys[
+                    proof { assert(keys@.contains(index)); }
+//@before 1 self.process_stack_ops(
+                    proof { gidx = index as int; }
+//@before 1 Ok(())
+        proof {
+            let chunk = self.output@.subrange(old(self).output@.len() as int, self.output@.len() as int);
+            assert(self.output@ =~= old(self).output@ + chunk);
+            assert(self.emit_post(old(self), r, opcode, opcode, RefArg { idx: gidx }, chunk));
+        }
+//@arm BinGet
+//@subst self.state.memo.keys().filter(|&&k| k < 256).copied().collect() => vf_keys_below(&self.state.memo, 256)
+//@subst valid_indices.sort_unstable() => vf_sort_unstable(&mut valid_indices)
+//@subst self.mutate_memo_index(index, source).min(255) => vf_min_usize(self.mutate_memo_index(index, source), 255)
+//@rewrite R14 process_stack_ops self.process_stack_ops($ARGS, Ghost(r), Ghost(RefArg { idx: index as int }))
+//@prelude
+        let ghost mut gidx: int = 0;
+//@before 1 vf_sort_unstable(&mut valid_indices)
+                proof { assert(r.memo.dom().contains(0)); assert(self.state.memo@.dom().contains(0usize)); assert(valid_indices@.contains(0usize)); }
+//@after 1 vf_sort_unstable(&mut valid_indices)
+                proof { assert(valid_indices@.contains(0usize)); assert(valid_indices@.len() > 0); }
+//@after 1 let index = valid_indices[
+                    proof { assert(valid_indices@.contains(index)); }
+//@before 1 self.process_stack_ops(
+                    proof { gidx = index as int; }
+//@before 1 Ok(())
+        proof {
+            let chunk = self.output@.subrange(old(self).output@.len() as int, self.output@.len() as int);
+            assert(self.output@ =~= old(self).output@ + chunk);
+            assert(self.emit_post(old(self), r, opcode, opcode, RefArg { idx: gidx }, chunk));
+        }
+//@arm LongBinGet
+//@subst self.state.memo.keys().copied().collect() => vf_keys(&self.state.memo)
+//@subst keys.sort_unstable() => vf_sort_unstable(&mut keys)
+//@subst (index as u32).to_le_bytes() => vf_u32_to_le_bytes(index as u32)
+//@rewrite R14 process_stack_ops self.process_stack_ops($ARGS, Ghost(r), Ghost(RefArg { idx: index as int }))
+//@prelude
+        let ghost mut gidx: int = 0;
+//@after 1 vf_sort_unstable(&mut keys)
+                proof { assert(keys@.len() > 0); }
+//@after 1 let index = keys[
+                    proof { assert(keys@.contains(index)); }
+//@before 1 self.process_stack_ops(
+                    proof { gidx = index as int; }
+//@before 1 Ok(())
+        proof {
+            let chunk = self.output@.subrange(old(self).output@.len() as int, self.output@.len() as int);
+            assert(self.output@ =~= old(self).output@ + chunk);
+            assert(self.emit_post(old(self), r, opcode, opcode, RefArg { idx: gidx }, chunk));
+        }
+//@arm Ext1
+//@assume
+//@arm Ext2
+//@assume
+//@arm Ext4
+//@assume
+//@arm PersID
+//@assume
+//@arm Inst
+//@assume
+//@arm Frame
+//@subst unreachable!("Frame should not be emitted during generation") => vf_unreachable()
+//@arm _
+//@rewrite R14 emit_opcode self.emit_opcode($1, Ghost(r))
+//@before 1 Ok(())
+        proof {
+            let a0 = RefArg { idx: 0 };
+            assert(self.output@ =~= old(self).output@ + seq![ref_code(opcode) as u8]);
+            assert(opcode != OpcodeKind::Proto);
+            assert(old(self).flags_ok(opcode));
+            assert(contig(ref_step(opcode, a0, r)));
+            assert(self.rel(ref_step(opcode, a0, r)));
+            assert(self.emit_post(old(self), r, opcode, opcode, a0, seq![ref_code(opcode) as u8]));
+        }
 //@endfn
 
 }
